@@ -1608,7 +1608,8 @@ def extra(rng, tier):
                                                                     request.get("PATH_INFO")), status)
                 return M.request_response(view)
             if kind == "router":
-                return M.Router(*[(r.choice(["/{a}", "/x/{rest:any}", "/", "/x/{n:int}", "/{a}/{b}"]), mk(M, is_asgi, d - 1, r))
+                return M.Router(*[(r.choice(["/{a}", "/x/{rest:any}", "/", "/x/{n:int}", "/{a}/{b}", "/x/1", "/x", "/y/z",
+                                             "/x/abc", "/{rest:any}"]), mk(M, is_asgi, d - 1, r))
                                   for _ in range(r.choice([1, 2, 3]))])
             return M.Subpaths(*[(r.choice(["", "/x", "/y", "/x/1"]), mk(M, is_asgi, d - 1, r)) for _ in range(r.choice([1, 2]))])
 
@@ -1626,6 +1627,36 @@ def extra(rng, tier):
             violations.append({"line": "extra nested-router seed=%d depth=%d path=%s" % (seed, depth, enc(path)),
                                "out": "W %s | A %s" % (out_w, out_a),
                                "why": "nested Router/Subpaths application answers differently: WSGI %s, ASGI %s" % (out_w[:80], out_a[:80])})
+    # routers nested in routers, every pairing of an outer pattern with an inner pattern that match the same path
+    # (parameters are those of the route that finally matched: an inner static route has none)
+    def leaf_of(M, is_asgi):
+        if is_asgi:
+            async def view(request):
+                return M.PlainTextResponse("leaf %r" % (sorted(request.path_params.items()),))
+        else:
+            def view(request):
+                return M.PlainTextResponse("leaf %r" % (sorted(request.path_params.items()),))
+        return M.request_response(view)
+
+    pats = ["/{a}/{b}", "/x/{rest:any}", "/{rest:any}", "/x/1", "/x/{n:int}", "/{a}/1"]
+    for outer in pats:
+        for inner in pats:
+            for innermost in (None, "/x/1", "/{a}/{b}"):
+                def build(M, is_asgi):
+                    app = leaf_of(M, is_asgi)
+                    if innermost is not None:
+                        app = M.Router((innermost, app))
+                    return M.Router((outer, M.Router((inner, app))))
+
+                rq = req(path="/x/1")
+                out_w = _run_prebuilt_wsgi(build(W, False), rq)
+                out_a = _run_prebuilt_asgi(build(A, True), rq)
+                checked += 1
+                if out_w != out_a:
+                    violations.append({"line": "extra nested-routers outer=%s inner=%s innermost=%s" % (outer, inner, innermost),
+                                       "out": "W %s | A %s" % (out_w, out_a),
+                                       "why": "Router(%s -> Router(%s -> %s)) on /x/1 answers differently: WSGI %s, ASGI %s"
+                                              % (outer, inner, innermost or "view", out_w[-90:], out_a[-90:])})
     # one response object answering a SEQUENCE of requests (a response is an application; a FileResponse mounted in
     # a Router lives as long as the process): whatever earlier requests left behind on it, the two interfaces
     # must still answer every request alike
